@@ -211,7 +211,7 @@ def reader_sources(P, func, arm, roots):
     arm = list(arm or [])
     # the statements that follow the version switch in its block
     tail = []
-    if arm:
+    if arm and not isinstance(arm[-1], (ast.Return, ast.Raise)):  # an arm that returns never reaches the statements after the switch
         sw = getattr(arm[0], "_parent", None)
         par = getattr(sw, "_parent", None)
         for fld in ("body", "orelse", "finalbody"):
